@@ -54,7 +54,7 @@ def retry_table(ctx, rule, f):
     k_state = '%s.get_state()' % task
     k_has = "hasattr(%s.task_spec, 'get_join')" % task
     k_join = '%s.task_spec.get_join()' % task
-    rng = (0, 1, 2, 3)
+    rng = tuple(range(0, 6 if ctx.tier == 'thorough' else 4))
     variables = [('self.count', rng), (k_in, (True, False)), (k_no, rng),
                  (k_state, ctx.sd.ALL),
                  ('self._continue_on_clause', (None, OBJ)),
@@ -71,7 +71,7 @@ def retry_table(ctx, rule, f):
         if len(vals) < 2:
             continue
         if any(norm(v) == k_no for v in vals):
-            extra.append((name, rng + (4,)))
+            extra.append((name, rng + (rng[-1] + 1,)))
         else:
             extra.append((name, (True, False)))
     # SKIPPED never arrives: Task.complete does not run the after-complete
